@@ -66,8 +66,12 @@ func raceSSHSessions() {
 		defer cancel()
 		stats := make(chan string)
 		switch kind {
-		case "cat":
+		case "cat", "catglob":
 			args.What = files[0] + "," + files[1]
+			if kind == "catglob" {
+				// one glob command: one goroutine per match checks the session user's permissions
+				args.What = strings.TrimSuffix(files[0], "f0.log") + "f*.log"
+			}
 			if cl, err := clients.NewCatClient(args); err == nil {
 				cl.Start(ctx, stats)
 			}
@@ -86,7 +90,7 @@ func raceSSHSessions() {
 		}
 	}
 	var wg sync.WaitGroup
-	for _, k := range []string{"cat", "grep", "map", "cat", "cat", "grep"} {
+	for _, k := range []string{"cat", "grep", "map", "cat", "catglob", "grep", "catglob"} {
 		wg.Add(1)
 		go func(k string) { defer wg.Done(); run(k) }(k)
 	}
@@ -143,16 +147,16 @@ func racePass(c *core.Ctx) {
 	c.Count("long-lines")
 	time.Sleep(1500 * time.Millisecond) // server-side goroutines of the last sessions end within a second
 	syscall.Dup2(saved, 1)
-	c.Sample("8 client handlers printing coloured REMOTE/SERVER/CLIENT records concurrently; 6 concurrent real sessions (3 dcat with two files, 2 dgrep, 1 dmap) against one real server")
+	c.Sample("8 client handlers printing coloured REMOTE/SERVER/CLIENT records concurrently; 7 concurrent real sessions (3 dcat with two files, 2 dgrep, 1 dmap) against one real server")
 }
 
 func init() {
-	for _, p := range []string{"C16", "C07", "C02", "C06", "C13"} {
+	for _, p := range []string{"C16", "C07", "C02", "C06", "C13", "C08"} {
 		core.Register(&core.Check{
 			ID:       p + "R",
 			ReportAs: p,
 			Level:    "exploration",
-			Rule: "free-running -race pass (supplements the controlled exploration, whose scheduler hand-offs hide unsynchronised accesses): 8 client handlers printing coloured records concurrently, and 6 concurrent real sessions " +
+			Rule: "free-running -race pass (supplements the controlled exploration, whose scheduler hand-offs hide unsynchronised accesses): 8 client handlers printing coloured records concurrently, and 7 concurrent real sessions " +
 				"(dcat with two files, dgrep, dmap) against one real server, and 3 concurrent plain dcat of 40 lines longer than the transport buffer, in a binary built with the Go race detector; every reported data race is a violation",
 			Assumptions: []string{"the race detector reports races on the executed paths only (happens-before based, independent of the actual interleaving)"},
 			Serial:      true,
@@ -161,6 +165,7 @@ func init() {
 				"C07": {"internal/clients/handlers", "internal/server/handlers.(*baseHandler)", "internal/io/dlog", "internal/io/line", "internal/io/pool", "internal/color"},
 				"C02": {"internal/server/handlers", "internal/io/fs", "internal/io/pool", "internal/io/line", "internal/clients", "internal/regex", "internal/lcontext", "internal.(*Done)"},
 				"C06": {"internal/mapr", "internal/clients/maprclient", "internal/clients/handlers.(*MaprHandler)", "internal/server/handlers.(*ServerHandler)"},
+				"C08": {"internal/user", "internal/fs/permissions", "internal/io/fs/permissions"},
 				"C13": {"internal/server/handlers.(*readCommand)", "internal/server.(*Server)", "internal/server.(*stats)", "internal/clients/connectors"}}[p],
 			// the pinned tree's one benign race: FilePath() has a value receiver, so calling it copies the reader's
 			// statistics fields while the filter goroutine updates them (the copy is never read)
